@@ -8,7 +8,7 @@ git apply "$patch" || { echo "patch does not apply"; exit 9; }
 trap 'git -C /repo checkout -- . ' EXIT
 cd /verif
 for pid in "$@"; do
-  out=$(PYTHONHASHSEED=0 VERIF_TIER=${VERIF_TIER:-quick} /venv/bin/python check.py "$pid" --tier ${VERIF_TIER:-quick} 2>&1); rc=$?
+  out=$(VERIF_OUT_DIR=${VERIF_OUT_DIR:-/tmp/verif-trial} PYTHONHASHSEED=0 VERIF_TIER=${VERIF_TIER:-quick} /venv/bin/python check.py "$pid" --tier ${VERIF_TIER:-quick} 2>&1); rc=$?
   echo "$pid rc=$rc $(echo "$out" | grep -c '^VIOLATION') violation line(s)"
   echo "$out" | grep -E '^(VIOLATION|  sig=|KNOWN|INFRA)' | head -${SHOW:-4} | cut -c1-400
 done
